@@ -386,6 +386,16 @@ func (c *FnCtx) arith(op token.Token, x, y string, t, yTy types.Type, checks boo
 			if new(big.Int).And(k, k1).Sign() == 0 {
 				return "(mod " + x + " " + smtInt(k1) + ")"
 			}
+			// x & (2^a - 2^b): a contiguous run of ones from bit b to bit a-1 keeps exactly those bits:
+			// (x mod 2^a) - (x mod 2^b); exact for two's-complement x as well
+			if k.Sign() > 0 {
+				b := k.TrailingZeroBits()
+				hi := new(big.Int).Add(k, new(big.Int).Lsh(big.NewInt(1), b))
+				if hi.BitLen() > 0 && new(big.Int).And(hi, new(big.Int).Sub(hi, big.NewInt(1))).Sign() == 0 {
+					lo := new(big.Int).Lsh(big.NewInt(1), b)
+					return "(- (mod " + x + " " + smtInt(hi) + ") (mod " + x + " " + smtInt(lo) + "))"
+				}
+			}
 		}
 		return c.bitUF("and", x, y, ii)
 	case token.OR:
